@@ -21,6 +21,10 @@ CLAIMED = {
    text="Deductive proof per function of the linear fee function and the budget guards: feeRateAtPosition equals a spec function frAt (capped at the ending rate, equal to it from position >= width), the lemmas frAtMono / frAtBounds prove that frAt is non-decreasing in the position and stays within [start, end]; increaseFeeRate / Increment / IncreaseFeeRate preserve the object invariant wfAll and never lower currentFeeRate, fail exactly at position >= width, and IncreaseFeeRate(confTarget <= 1) leaves FeeRate() == endingFeeRate (ceiling reached one block before the deadline); NewLinearFeeFunction establishes the invariant (start <= end, after the fix of finding F6); MaxFeeRateAllowed returns min(MaxFeeRate, budget-over-size); Estimate is at least the relay floor unless capped by the maximum; createAndCheckTx returns a transaction only if its fee <= budget and builds it at FeeRate(); initializeFeeFunction hands exactly those values on.",
    note="A-fp: float64 conversion/division and btcutil.Amount.MulF64 are uninterpreted; the axioms mulf64_nonneg / mulf64_mono / mulf64_frac / mulf64_scale / frac_mono (IEEE-754 monotone rounding, error below one unit under 2^50) are assumed and listed in the evidence. A-dom: fee rates <= 2^40 sat/kw, budget >= 0, heights in [0, 2^30]. A-ext: chainfee.Estimator results are non-negative. Not decided: that the sweep tx spends all requested inputs and creates no dust output (tx assembly over input.Input interfaces is opaque), estimator behaviour, the block-driven loop that calls the fee function.",
    ref="DESIGN.md §4 C18"),
+ "C12": dict(
+   text="Deductive proof per function of the arbitrator's classification code: shouldGoOnChain returns true only at or after expiry minus the broadcast delta, exactly so for incoming HTLCs, for forwarded ones and after the grace period, and false before; in checkCommitChainActions the go-to-chain test for a received HTLC is evaluated only when its preimage is available, with the right delta and height, and every map insertion puts an HTLC under the action that its dust flag / go-to-chain verdict demands (FailDust, OutgoingWatch, Timeout, IncomingDustFinal, IncomingWatch and nothing else); checkRemoteDanglingActions and checkRemoteDiffActions fail back an HTLC only if it is absent from the confirmed commitment, its preimage is unknown and (before confirmation) it is about to expire, dust and non-dust separated; constructChainActions dispatches local / remote / remote-pending to the matching checker with the matching flag; prepContractResolutions creates the resolver kind that the action names, for the HTLC and resolution looked up at that HTLC's outpoint.",
+   note="Site obligations inside loops are checked for an arbitrary iteration (loops are havocked, the facts used are local to the iteration). Not decided: that every HTLC is classified exactly once per pass (needs a ghost count over the loops), the timing of the block-driven state machine, resolver behaviour, 'exactly once' across the three close triggers. shouldGoOnChain's postconditions hold under RefundTimeout >= delta (candidate finding F3: uint32 underflow below that, unreachable at real block heights).",
+   ref="DESIGN.md §4 C12"),
 }
 
 NOT_APPLICABLE = {
